@@ -8,8 +8,11 @@
      removal from the queue and the NACK call), coap_io_do_epoll_lkd (ends with a prepare)
    of src/coap_net.c and src/coap_io.c.  Definitions only.
 
-   Not in this model (see notes/C06.md): NSTART hold-back (C08: the driver keeps con_active
-   below NSTART), keep-alive clamp of next_delay (ping_timeout = 0), other timers that enter
+   NSTART: a Confirmable that finds no free slot waits in the session's delay queue (its timeout
+   is drawn THEN, in coap_session_delay_pdu) and goes out when a slot is released (ACK, RST,
+   give-up, cancel): coap_session_connected.  The order and fairness of NSTART are C08's subject;
+   here it is about the timer a released message gets.
+   Not in this model (see notes/C06.md): keep-alive clamp of next_delay (ping_timeout = 0), other timers that enter
    the reported wait (observe, async, block-wise, DTLS), wrap-around of the 64-bit tick counter
    and of the 8-bit retransmit counter beyond 255 (theorems assume max_retransmit <= 255). *)
 From Coq Require Import ZArith List Bool.
@@ -24,16 +27,47 @@ Record rt_cfg := rt_mk_cfg {
   rc_max : Z                          (* max_retransmit *)
 }.
 
+(* what a session contributes: NSTART, the number of Confirmables in flight (con_active) and the
+   Confirmables that wait for a slot (session->delayqueue, FIFO).  A held node has not been
+   transmitted yet; the model gives it retransmit counter -1, its release is the transition to 0
+   (in C the node is created with retransmit_cnt = 0 and coap_session_connected() does not touch
+   it: the queue shows 0 in both). *)
+Record rt_sinfo := rt_mk_sinfo {
+  si_nstart : Z;
+  si_active : Z;
+  si_hold : list sq_node
+}.
+Definition rt_sinfo0 : rt_sinfo := rt_mk_sinfo 1 0 [].
+
+Fixpoint rt_sget (s : Z) (tbl : list (Z * rt_sinfo)) : rt_sinfo :=
+  match tbl with
+  | [] => rt_sinfo0
+  | (k, e) :: r => if k =? s then e else rt_sget s r
+  end.
+Fixpoint rt_sset (s : Z) (e : rt_sinfo) (tbl : list (Z * rt_sinfo)) : list (Z * rt_sinfo) :=
+  match tbl with
+  | [] => [(s, e)]
+  | (k, e0) :: r => if k =? s then (k, e) :: r else (k, e0) :: rt_sset s e r
+  end.
+
 Record rt_state := rt_mk_state {
   rs_now : Z;                        (* the clock (coap_ticks) *)
   rs_base : Z;                       (* context->sendqueue_basetime *)
   rs_q : sq_queue;                   (* context->sendqueue *)
-  rs_uid : Z                         (* ghost: number of messages accepted so far *)
+  rs_uid : Z;                        (* ghost: number of messages accepted so far *)
+  rs_sess : list (Z * rt_sinfo)      (* the sessions that have sent something *)
 }.
 
-Definition rt_init (t0 : Z) : rt_state := rt_mk_state t0 0 [] 0.
+(* a fresh context at time t0; nst = the sessions with their NSTART setting (it is not changed
+   while messages are pending; a session that is not listed has the default NSTART = 1) *)
+Definition rt_init (t0 : Z) (nst : list (Z * Z)) : rt_state :=
+  rt_mk_state t0 0 [] 0 (map (fun p => (fst p, rt_mk_sinfo (snd p) 0 [])) nst).
 Definition rt_set_q (st : rt_state) (q : sq_queue) : rt_state :=
-  rt_mk_state (rs_now st) (rs_base st) q (rs_uid st).
+  rt_mk_state (rs_now st) (rs_base st) q (rs_uid st) (rs_sess st).
+Definition rt_set_now (st : rt_state) (t : Z) : rt_state :=
+  rt_mk_state t (rs_base st) (rs_q st) (rs_uid st) (rs_sess st).
+Definition rt_set_sess (st : rt_state) (tbl : list (Z * rt_sinfo)) : rt_state :=
+  rt_mk_state (rs_now st) (rs_base st) (rs_q st) (rs_uid st) tbl.
 
 Inductive rt_event :=
 | RtAdvance (dt : Z)                                       (* time passes *)
@@ -74,27 +108,85 @@ Inductive rt_out :=
 (* coap_wait_ack / the re-insertion in coap_retransmit: delay from now *)
 Definition rt_enqueue (st : rt_state) (n : sq_node) (delay : Z) : rt_state :=
   match rs_q st with
-  | [] => rt_mk_state (rs_now st) (rs_now st) (sq_insert [] delay n) (rs_uid st)
+  | [] => rt_mk_state (rs_now st) (rs_now st) (sq_insert [] delay n) (rs_uid st) (rs_sess st)
   | _ :: _ => rt_set_q st (sq_insert (rs_q st) ((rs_now st - rs_base st) + delay) n)
   end.
 
-(* coap_send -> coap_send_internal for a CON on UDP that is not held back: transmit, draw the
-   byte, compute the timeout once, queue with retransmit_cnt = 0 *)
+Definition rt_bump_node (n : sq_node) (c : Z) : sq_node :=
+  sq_mk_node (qn_uid n) (qn_sess n) (qn_mid n) c (qn_timeout n) (qn_max n) (qn_bytes n).
+
+(* the loop of coap_session_connected(): while the head of the delay queue finds a free slot it
+   takes it (con_active++), is transmitted and gets its retransmission timer (coap_wait_ack with
+   the timeout that was drawn when it was held) *)
+Fixpoint rt_release_go (st : rt_state) (ns ca : Z) (dq : list sq_node)
+  : rt_state * Z * list sq_node * list rt_out :=
+  match dq with
+  | [] => (st, ca, [], [])
+  | n :: rest =>
+      if ns <=? ca then (st, ca, dq, [])
+      else
+        let c := qn_cnt n + 1 in
+        let st1 := rt_enqueue st (rt_bump_node n c) (qn_timeout n * 2 ^ c) in
+        let '(st2, ca2, dq2, o2) := rt_release_go st1 ns (ca + 1) rest in
+        (st2, ca2, dq2, RoTx (rs_now st) (qn_uid n) (qn_sess n) (qn_bytes n) c (qn_timeout n) :: o2)
+  end.
+
+Definition rt_release (st : rt_state) (s : Z) : rt_state * list rt_out :=
+  let si := rt_sget s (rs_sess st) in
+  let '(st1, ca, dq, o) := rt_release_go st (si_nstart si) (si_active si) (si_hold si) in
+  (rt_set_sess st1 (rt_sset s (rt_mk_sinfo (si_nstart si) ca dq) (rs_sess st1)), o).
+
+(* if (session->con_active) { session->con_active--; coap_session_connected(session); } *)
+Definition rt_free_slot (st : rt_state) (s : Z) : rt_state * list rt_out :=
+  let si := rt_sget s (rs_sess st) in
+  if 0 <? si_active si then
+    rt_release (rt_set_sess st (rt_sset s (rt_mk_sinfo (si_nstart si) (si_active si - 1) (si_hold si))
+                                        (rs_sess st))) s
+  else (st, []).
+
+(* coap_send -> coap_send_internal -> coap_send_pdu for a CON on UDP.
+   A free slot (con_active < NSTART): transmit, take the slot, draw the byte, compute the timeout
+   once, queue with retransmit_cnt = 0.
+   No free slot: coap_session_delay_pdu - a message id that already waits is refused
+   (COAP_INVALID_MID), otherwise the byte is drawn and the timeout computed HERE, the node is
+   appended to the session's delay queue, and coap_send reports the mid. *)
 Definition rt_send (st : rt_state) (s m : Z) (bytes : list Z) (cfg : rt_cfg) (r : Z)
   : rt_state * list rt_out :=
   let T := fp_calc_timeout (rc_at_ip cfg) (rc_at_fp cfg) (rc_arf_ip cfg) (rc_arf_fp cfg) r in
-  let n := sq_mk_node (rs_uid st) s m 0 T (rc_max cfg) bytes in
-  let st1 := rt_mk_state (rs_now st) (rs_base st) (rs_q st) (rs_uid st + 1) in
-  (rt_enqueue st1 n T, [RoTx (rs_now st) (rs_uid st) s bytes 0 T; RoSent m]).
+  let si := rt_sget s (rs_sess st) in
+  let ns := si_nstart si in
+  if ns <=? si_active si then
+    if existsb (fun n => qn_mid n =? m) (si_hold si) then (st, [RoSent (-1)])
+    else
+      let n := sq_mk_node (rs_uid st) s m (-1) T (rc_max cfg) bytes in
+      (rt_mk_state (rs_now st) (rs_base st) (rs_q st) (rs_uid st + 1)
+                   (rt_sset s (rt_mk_sinfo ns (si_active si) (si_hold si ++ [n])) (rs_sess st)),
+       [RoSent m])
+  else
+    let n := sq_mk_node (rs_uid st) s m 0 T (rc_max cfg) bytes in
+    let st1 := rt_mk_state (rs_now st) (rs_base st) (rs_q st) (rs_uid st + 1)
+                           (rt_sset s (rt_mk_sinfo ns (si_active si + 1) (si_hold si)) (rs_sess st)) in
+    (rt_enqueue st1 n T, [RoTx (rs_now st) (rs_uid st) s bytes 0 T; RoSent m]).
 
-(* coap_retransmit(context, node) for a node that was just popped *)
+(* coap_retransmit(context, node) for a node that was just popped.
+   Retransmission: the node is re-inserted, gives its slot back and coap_send_pdu takes it again
+   (con_active is at most NSTART, so the slot is there: the branch that would move the node to
+   the delay queue is marked with RoFuel and proved unreachable).
+   Give-up: the slot is released - a waiting message of the session goes out - and then the
+   NACK handler is called. *)
 Definition rt_retransmit (st : rt_state) (n : sq_node) : rt_state * list rt_out :=
   if qn_cnt n <? qn_max n then
     let c := (qn_cnt n + 1) mod 256 in                      (* unsigned char retransmit_cnt *)
-    let n' := sq_mk_node (qn_uid n) (qn_sess n) (qn_mid n) c (qn_timeout n) (qn_max n) (qn_bytes n) in
-    (rt_enqueue st n' (qn_timeout n * 2 ^ c), [RoTx (rs_now st) (qn_uid n) (qn_sess n) (qn_bytes n) c (qn_timeout n)])
+    let st1 := rt_enqueue st (rt_bump_node n c) (qn_timeout n * 2 ^ c) in
+    let si := rt_sget (qn_sess n) (rs_sess st1) in
+    let ca := if 0 <? si_active si then si_active si - 1 else si_active si in
+    if si_nstart si <=? ca then (st1, [RoFuel])
+    else
+      (rt_set_sess st1 (rt_sset (qn_sess n) (rt_mk_sinfo (si_nstart si) (ca + 1) (si_hold si)) (rs_sess st1)),
+       [RoTx (rs_now st) (qn_uid n) (qn_sess n) (qn_bytes n) c (qn_timeout n)])
   else
-    (st, [RoNack (rs_now st) (qn_uid n) (qn_sess n) rt_NACK_TOO_MANY_RETRIES (qn_mid n) (qn_cnt n) (qn_max n)]).
+    let (st1, o1) := rt_free_slot st (qn_sess n) in
+    (st1, o1 ++ [RoNack (rs_now st) (qn_uid n) (qn_sess n) rt_NACK_TOO_MANY_RETRIES (qn_mid n) (qn_cnt n) (qn_max n)]).
 
 (* while (nextpdu && now >= basetime && nextpdu->t <= now - basetime) *)
 Definition rt_due (st : rt_state) : bool :=
@@ -122,8 +214,15 @@ Fixpoint rt_fire (fuel : nat) (st : rt_state) : rt_state * list rt_out :=
 Definition rt_budget (q : sq_queue) : nat :=
   fold_right (fun e acc => (S (Z.to_nat (qn_max (snd e) - qn_cnt (snd e))) + acc)%nat) O q.
 
+(* all messages that wait for a slot, and the loop bound over queue and waiting messages (a give-up
+   releases waiting messages into the queue) *)
+Definition rt_held (tbl : list (Z * rt_sinfo)) : list sq_node :=
+  flat_map (fun e => si_hold (snd e)) tbl.
+Definition rt_budget_all (st : rt_state) : nat :=
+  (rt_budget (rs_q st) + rt_budget (map (fun n => (0%Z, n)) (rt_held (rs_sess st))))%nat.
+
 Definition rt_fire_all (st : rt_state) : rt_state * list rt_out :=
-  rt_fire (rt_budget (rs_q st)) st.
+  rt_fire (rt_budget_all st) st.
 
 (* the value returned by coap_io_prepare_io when only the send queue has timers:
    (unsigned int)((timeout * 1000 + COAP_TICKS_PER_SECOND - 1) / COAP_TICKS_PER_SECOND) *)
@@ -144,15 +243,18 @@ Definition rt_tick (st : rt_state) : rt_state * list rt_out :=
 Definition rt_ack (st : rt_state) (s m : Z) : rt_state * list rt_out :=
   match sq_remove (rs_q st) s m with
   | Some ((_, n), q') =>
-      let (st1, o) := rt_fire_all (rt_set_q st q') in (st1, RoAcked (rs_now st) (qn_uid n) :: o)
+      let (st1, o1) := rt_free_slot (rt_set_q st q') s in      (* a waiting message goes out *)
+      let (st2, o2) := rt_fire_all st1 in
+      (st2, RoAcked (rs_now st) (qn_uid n) :: o1 ++ o2)
   | None => rt_fire_all st
   end.
 
 Definition rt_rst (st : rt_state) (s m : Z) : rt_state * list rt_out :=
   match sq_remove (rs_q st) s m with
   | Some ((_, n), q') =>
-      let (st1, o) := rt_fire_all (rt_set_q st q') in
-      (st1, RoNack (rs_now st) (qn_uid n) (qn_sess n) rt_NACK_RST (qn_mid n) (qn_cnt n) (qn_max n) :: o)
+      let (st1, o1) := rt_free_slot (rt_set_q st q') s in      (* before the handler is called *)
+      let (st2, o2) := rt_fire_all st1 in
+      (st2, o1 ++ RoNack (rs_now st) (qn_uid n) (qn_sess n) rt_NACK_RST (qn_mid n) (qn_cnt n) (qn_max n) :: o2)
   | None =>
       let (st1, o) := rt_fire_all st in (st1, RoNackNoPdu (rs_now st) s rt_NACK_RST m :: o)
   end.
@@ -178,10 +280,20 @@ Definition rt_tok_match (s : Z) (tok : list Z) (n : sq_node) : bool :=
    of that session with the response's token (coap_cancel_all_messages: the response is the
    implicit acknowledgement, RFC 7252 5.2.2), no NACK; the message id of the NON is the peer's
    and plays no role (/repo 0c2a709) *)
+Fixpoint rt_free_slots (k : nat) (st : rt_state) (s : Z) : rt_state * list rt_out :=
+  match k with
+  | O => (st, [])
+  | S k' => let (st1, o1) := rt_free_slot st s in
+            let (st2, o2) := rt_free_slots k' st1 s in (st2, o1 ++ o2)
+  end.
+
+(* (every cancelled message gives its slot back, waiting messages of the session go out; exact
+   when no waiting message of the session carries that token itself, see notes/C06.md) *)
 Definition rt_non (st : rt_state) (s : Z) (tok : list Z) : rt_state * list rt_out :=
   let (rm, q') := sq_cancel (rt_tok_match s tok) (rs_q st) in
-  let (st1, o) := rt_fire_all (rt_set_q st q') in
-  (st1, map (fun n => RoAcked (rs_now st) (qn_uid n)) rm ++ o).
+  let (st1, o1) := rt_free_slots (length rm) (rt_set_q st q') s in
+  let (st2, o2) := rt_fire_all st1 in
+  (st2, map (fun n => RoAcked (rs_now st) (qn_uid n)) rm ++ o1 ++ o2).
 
 (* coap_session_disconnected(session, reason) for reason <> COAP_NACK_ICMP_ISSUE on a datagram
    session with an empty delay queue: coap_cancel_session_messages removes every queued message
@@ -195,10 +307,12 @@ Definition rt_nack_of (t reason : Z) (n : sq_node) : rt_out :=
 
 Definition rt_disconnect (st : rt_state) (s reason : Z) : rt_state * list rt_out :=
   let (rm, q') := sq_cancel (rt_sess_match s) (rs_q st) in
-  (rt_set_q st q',
-   match rm with
+  let si := rt_sget s (rs_sess st) in
+  let gone := si_hold si ++ rm in          (* the waiting messages are reported first *)
+  (rt_set_sess (rt_set_q st q') (rt_sset s (rt_mk_sinfo (si_nstart si) 0 []) (rs_sess st)),
+   match gone with
    | [] => [RoNackNoPdu (rs_now st) s reason 0]
-   | _ => map (rt_nack_of (rs_now st) reason) rm
+   | _ => map (rt_nack_of (rs_now st) reason) gone
    end).
 
 (* the function as it was: "take the first one" reported the first queued message of the session
@@ -236,7 +350,7 @@ Definition rt_io_process (st : rt_state) (tmo : Z) : rt_state * list rt_out :=
   let (st1, o1) := rt_fire_all st in
   let (w, _) := rt_wait st1 in
   let et := rt_epoll_timeout w tmo in
-  let st2 := rt_mk_state (rs_now st1 + (if 0 <? et then et else 0)) (rs_base st1) (rs_q st1) (rs_uid st1) in
+  let st2 := rt_set_now st1 (rs_now st1 + (if 0 <? et then et else 0)) in
   let (st3, o3) := rt_fire_all st2 in
   (st3, o1 ++ RoEpoll (rs_now st1) et :: o3 ++ [RoIoRet (rs_now st3) (rs_now st3 - rs_now st)]).
 
@@ -252,7 +366,7 @@ Definition rt_delete (st : rt_state) (s m : Z) : rt_state * list rt_out :=
 
 Definition rt_step (st : rt_state) (ev : rt_event) : rt_state * list rt_out :=
   match ev with
-  | RtAdvance dt => (rt_mk_state (rs_now st + dt) (rs_base st) (rs_q st) (rs_uid st), [])
+  | RtAdvance dt => (rt_set_now st (rs_now st + dt), [])
   | RtSend s m b cfg r => rt_send st s m b cfg r
   | RtTick => rt_tick st
   | RtAck s m => rt_ack st s m
@@ -287,6 +401,6 @@ Fixpoint rt_punctual (fuel : nat) (st : rt_state) : rt_state * list rt_out :=
       let (st1, o1) := rt_tick st in
       let (w, _) := rt_wait st1 in
       if w =? 0 then (st1, o1)
-      else let (st2, o2) := rt_punctual f (rt_mk_state (rs_now st1 + w) (rs_base st1) (rs_q st1) (rs_uid st1)) in
+      else let (st2, o2) := rt_punctual f (rt_set_now st1 (rs_now st1 + w)) in
            (st2, o1 ++ o2)
   end.
